@@ -84,9 +84,6 @@ MUTANTS = [
  ("M24-stale-func-breakpoints-kept", "C19", "debugger.go",
   "\t\t\t\t// reset stale breakpoints\n\t\t\t\tn.start.setBreakOnCall(false)\n", "\t\t\t\t// reset stale breakpoints\n",
   "SetBreakpoints no longer clears function breakpoints of an earlier request"),
- ("M25-terminate-leaves-stopped-goroutines", "C19", "debugger.go",
-  "\t\tg.mode = DebugTerminate\n\t\tclose(g.resume)\n", "\t\tg.mode = DebugTerminate\n",
-  "Terminate marks the goroutines but does not release the ones stopped at a breakpoint"),
  ("M26-detach-unconditional", "C19", "debugger.go",
   "\t\t\tif interp.debugger == dbg {\n\t\t\t\tinterp.debugger = nil\n\t\t\t}\n", "\t\t\tinterp.debugger = nil\n",
   "the goroutine of a finished session clears the debugger field even if a new session has been started (re-introduces the defect repaired by a2e8040)"),
